@@ -155,7 +155,16 @@ var encoderFor = map[string][]string{"json": {"MarshalJSON"}, "text": {"MarshalT
 
 // write produces a clean encoding for the entry point from a generated value.
 func write(e *entry, g *gen.G, t *core.Tape) (msg []byte, desc string) {
+	simrt.HangHit = false
+	simrt.Limit = simrt.Steps + 200000000 // (the writer's own budget: see encodeForWire)
 	defer func() {
+		simrt.Disarm()
+		if simrt.HangHit {
+			simrt.HangHit = false
+			_ = recover()
+			msg, desc = nil, "writer did not finish"
+			return
+		}
 		if r := recover(); r != nil {
 			// an encoder panicking on a generated value is not C04's subject
 			msg, desc = nil, fmt.Sprintf("writer panicked: %v", r)
@@ -281,10 +290,47 @@ func retainedBy(e *entry, input []byte) (kept uint64) {
 	return kept
 }
 
+// encodeForWire is the writer's side: the library's encoder under a budget of its own. An
+// encoder that panics or does not finish on a generated value is not C04's subject (the writer
+// then has nothing to send); it must not stall the simulation either.
+func encodeForWire(v ap.Item, codec string) (msg []byte) {
+	defer func() {
+		simrt.Disarm()
+		if r := recover(); r != nil {
+			msg = nil
+		}
+	}()
+	simrt.HangHit = false
+	simrt.Limit = simrt.Steps + 200000000
+	if codec == "gob" {
+		msg, _ = ap.GobEncode(v)
+		return gobcanon.Canon(msg)
+	}
+	msg, _ = ap.MarshalJSON(v)
+	if simrt.HangHit {
+		simrt.HangHit = false
+		return nil
+	}
+	return msg
+}
+
 // guarded runs fn under the panic oracle; stage names what was running.
 func guarded(c *core.Ctx, e *entry, stage string, input []byte, fn func()) (ok bool) {
+	return guarded2(c, e, stage, input, fn, false)
+}
+
+// guarded2: with hangIsCallers, an exhausted budget is left to the caller (the HangHit latch stays
+// set and the budget panic is passed on) instead of being reported.
+func guarded2(c *core.Ctx, e *entry, stage string, input []byte, fn func(), hangIsCallers bool) (ok bool) {
 	simrt.HangHit = false
 	defer func() {
+		if hangIsCallers && simrt.HangHit {
+			// (re-raised if it was not swallowed on the way: the caller recovers it)
+			if r := recover(); r != nil {
+				panic(r)
+			}
+			return
+		}
 		r := recover()
 		if r == nil && !simrt.HangHit {
 			return
@@ -423,9 +469,35 @@ var readOnlyNiladic = []string{"MarshalJSON", "MarshalText", "MarshalBinary", "G
 func followUps(c *core.Ctx, e *entry, input []byte, val any) {
 	// follow-ups only have to terminate (the property bounds the decoders' time, not theirs):
 	// a generous budget that also lets comparisons that are quadratic in a list's length finish
-	budget := int64(20000000) + 5000*int64(len(input))
+	budget := int64(20000000) + 5000*int64(min(len(input), compareUpTo)) + 100*int64(len(input))
 	run := func(stage string, fn func()) bool {
 		simrt.Progress.Add(1)
+		if len(input) > compareUpTo {
+			// On a large input the budget is only there to keep the simulation moving: a follow-up that
+			// is slow on half a megabyte (quadratic in the text, say) still terminates, and the property
+			// asks no more of it. It is abandoned, counted, and not reported; genuine loops show on the
+			// inputs of ordinary size, where the budget is far above anything polynomial.
+			abandoned := false
+			ok := func() (ok bool) {
+				defer func() {
+					if simrt.HangHit {
+						simrt.HangHit = false
+						_ = recover()
+						abandoned, ok = true, false
+					}
+				}()
+				return guarded2(c, e, stage, input, func() {
+					simrt.Limit = simrt.Steps + budget
+					fn()
+					simrt.Disarm()
+				}, true)
+			}()
+			if abandoned {
+				simrt.Disarm()
+				c.Probe("followup_abandoned_on_large_input")
+			}
+			return ok
+		}
 		return guarded(c, e, stage, input, func() {
 			simrt.Limit = simrt.Steps + budget
 			fn()
@@ -473,14 +545,34 @@ func followUps(c *core.Ctx, e *entry, input []byte, val any) {
 		// compared: with what the same value looks like after a trip through either codec (a cached
 		// copy against a fresh one) – both argument orders
 		var viaGob, viaJSON ap.Item
-		if !run("followup:re-decode", func() {
-			if b, err := ap.GobEncode(it); err == nil && len(b) > 0 {
-				viaGob, _ = ap.GobDecode(b)
-			}
-			if b, err := ap.MarshalJSON(it); err == nil && len(b) > 0 {
-				viaJSON, _ = ap.UnmarshalJSON(b)
-			}
+		var gobBytes, jsonBytes []byte
+		if !run("followup:re-encode", func() {
+			gobBytes, _ = ap.GobEncode(it)
+			jsonBytes, _ = ap.MarshalJSON(it)
 		}) {
+			return
+		}
+		// what the library wrote is an input like any other: decoding it is held to the decoders'
+		// time bound (proportional to these bytes), not to the follow-ups' generous budget
+		redecode := func(pe *entry, b []byte) (twin ap.Item, ok bool) {
+			if pe == nil || len(b) == 0 {
+				return nil, true
+			}
+			simrt.Progress.Add(1)
+			ok = guarded(c, pe, "decode", b, func() {
+				simrt.ArmLadder(timeBound(len(b)))
+				v, _ := pe.decode(b)
+				simrt.Disarm()
+				twin, _ = v.(ap.Item)
+			})
+			simrt.Disarm()
+			return twin, ok
+		}
+		var ok bool
+		if viaGob, ok = redecode(byName["pkg.GobDecode"], gobBytes); !ok {
+			return
+		}
+		if viaJSON, ok = redecode(byName["pkg.UnmarshalJSON"], jsonBytes); !ok {
 			return
 		}
 		for _, tw := range []struct {
@@ -597,6 +689,10 @@ func run(c *core.Ctx) {
 		if t.Bool(1, 2) {
 			e = byName["pkg.UnmarshalJSON"]
 		}
+	} else if e.codec == "gob" && t.Bool(1, 6) {
+		// a well-formed gob stream of another schema (an older version's blob, another program's)
+		msg, desc = gobcanon.Canon(gen.ForeignGob(t)), "gob stream of a foreign schema"
+		c.Probe("foreign_gob_schema")
 	} else {
 		msg, desc = write(e, g, t)
 	}
@@ -680,8 +776,12 @@ func runLarge(c *core.Ctx, g *gen.G) {
 	}
 	var v ap.Item
 	var entryNames []string
-	if t.Bool(1, 4) {
+	switch t.Draw(5) {
+	case 0:
 		runDeep(c, g)
+		return
+	case 1, 2:
+		runLongText(c, g)
 		return
 	}
 	switch t.Draw(4) {
@@ -703,12 +803,10 @@ func runLarge(c *core.Ctx, g *gen.G) {
 	if e == nil {
 		return
 	}
-	var msg []byte
-	if e.codec == "gob" {
-		msg, _ = ap.GobEncode(v)
-		msg = gobcanon.Canon(msg)
-	} else {
-		msg, _ = ap.MarshalJSON(v)
+	msg := encodeForWire(v, e.codec)
+	if len(msg) == 0 {
+		c.Probe("writer_had_nothing_to_send")
+		return
 	}
 	what := "clean"
 	if t.Bool(1, 2) {
@@ -748,18 +846,80 @@ func runDeep(c *core.Ctx, g *gen.G) {
 	if e == nil {
 		return
 	}
-	var msg []byte
-	if e.codec == "gob" {
-		msg, _ = ap.GobEncode(inner)
-		msg = gobcanon.Canon(msg)
-	} else {
-		msg, _ = ap.MarshalJSON(inner)
+	msg := encodeForWire(inner, e.codec)
+	if len(msg) == 0 {
+		c.Probe("writer_had_nothing_to_send")
+		return
 	}
 	c.Probe("deep_nesting_decoded")
 	c.Logf("deep: %d levels through %v, %d bytes; reader: %s", depth, map[bool]string{true: "object", false: "inReplyTo"}[viaObject], len(msg), e.name)
 	readAndExercise(c, e, msg, 0)
 	c.Rec.Nontriv = true
 	finish(c, e, fmt.Sprintf("deep/%d/%v", depth, viaObject), nil)
+}
+
+// runLongText: an article – one text of 32..512 KiB, dense with the characters that make the
+// text helpers work (quotes, backslashes, line breaks, markup, non-ASCII), clean or with one
+// fault. Only a long text tells a helper that is linear in the text from one that is quadratic
+// in it (an edit that shifts the tail once per escape, a string grown piece by piece).
+func runLongText(c *core.Ctx, g *gen.G) {
+	t := c.Tape
+	size := []int{32 << 10, 96 << 10, 256 << 10, 512 << 10}[t.Draw(4)]
+	pieces := [][]string{
+		{"<p>line of text with a \"quote\" and a back\\slash</p>\n", "second\tline\r\n", "é ü 日本 \U0001F600 "},
+		{`\n`, `\"`, `\\`, `\t`, "x"}, // the escapes spelled out, as a doubly encoded text carries them
+		{"plain words only, nothing to escape at all. "},
+	}[[]int{0, 1, 1, 2}[t.Draw(4)]]
+	buf := make([]byte, 0, size+64)
+	for len(buf) < size {
+		buf = append(buf, pieces[t.Draw(len(pieces))]...)
+	}
+	var v ap.Item
+	names := []string{"pkg.UnmarshalJSON", "Object.UnmarshalJSON", "pkg.GobDecode", "Object.GobDecode"}
+	switch t.Draw(3) {
+	case 0:
+		v = &ap.Object{ID: g.IRI(), Type: ap.ArticleType, Content: ap.NaturalLanguageValues{{Ref: ap.NilLangRef, Value: buf}}}
+	case 1:
+		v = &ap.Object{ID: g.IRI(), Type: ap.ArticleType, Name: ap.NaturalLanguageValues{{Ref: "en", Value: buf[:len(buf)/2]}, {Ref: "fr", Value: buf[len(buf)/2:]}}}
+	default:
+		v = &ap.Object{ID: g.IRI(), Type: ap.NoteType, Source: ap.Source{Content: ap.NaturalLanguageValues{{Ref: ap.NilLangRef, Value: buf}}, MediaType: "text/markdown"}}
+	}
+	e := byName[names[t.Draw(len(names))]]
+	if e == nil {
+		return
+	}
+	var msg []byte
+	if e.codec == "json" && t.Bool(2, 3) {
+		// written by a peer (encoding/json), as most articles a server decodes are
+		doc := map[string]any{"@context": "https://www.w3.org/ns/activitystreams", "id": string(v.GetLink()), "type": "Article"}
+		switch t.Draw(3) {
+		case 0:
+			doc["content"] = string(buf)
+		case 1:
+			doc["contentMap"] = map[string]string{"en": string(buf[:len(buf)/2]), "fr": string(buf[len(buf)/2:])}
+		default:
+			doc["source"] = map[string]any{"content": string(buf), "mediaType": "text/markdown"}
+		}
+		msg, _ = json.Marshal(doc)
+	} else {
+		msg = encodeForWire(v, e.codec)
+	}
+	if len(msg) == 0 {
+		c.Probe("writer_had_nothing_to_send")
+		return
+	}
+	fault := "clean"
+	if t.Bool(1, 2) && len(msg) > 0 {
+		prog := wire.DrawProgram(t, len(msg), 1, []string{wire.Truncate, wire.BitFlip, wire.DropChunk, wire.DupChunk, wire.ZeroChunk, wire.FieldTruncate})
+		msg = wire.Run(msg, prog, nil)
+		fault = prog[0].String()
+		c.Fault(prog[0].Kind)
+	}
+	c.Probe("long_text_decoded")
+	c.Logf("long text: %d bytes of text, message %d bytes, %s; reader: %s", len(buf), len(msg), fault, e.name)
+	readAndExercise(c, e, msg, 0)
+	c.Rec.Nontriv = true
+	finish(c, e, fmt.Sprintf("longtext/%d/%s", size, fault), nil)
 }
 
 func finish(c *core.Ctx, e *entry, what string, _ any) {
